@@ -150,9 +150,14 @@ class DecoratorRegistry:
                 # listen to the queue
                 #
                 State.set(test_handshake[0], test_handshake[1])
-        await dm.start()
+        try:
+            await dm.start()
 
-        ret = await dm.wait_until()
+            ret = await dm.wait_until()
+        finally:
+            # always release the temporary decorators, including when the waiting task is cancelled
+            if dm.status is DecoratorManagerStatus.RUNNING:
+                await dm.stop()
 
         return ret
 
@@ -184,7 +189,7 @@ class WaitUntilDecoratorManager(DecoratorManager):
         """Resolve the waiting future on the first incoming dispatch."""
         _LOGGER.debug("task.wait_until dispatch: %s", data)
         if self._future.done():
-            _LOGGER.debug("task.wait_until future already completed: %s", self._future.exception())
+            _LOGGER.debug("task.wait_until future already completed: %s", self._future)
             # ignore another calls
             return
         await self.stop()
@@ -193,7 +198,7 @@ class WaitUntilDecoratorManager(DecoratorManager):
     async def handle_exception(self, exc: Exception) -> None:
         """Propagate an evaluation exception to the waiting caller."""
         if self._future.done():
-            _LOGGER.debug("task.wait_until future already completed: %s", self._future.exception())
+            _LOGGER.debug("task.wait_until future already completed: %s", self._future)
             return
         await self.stop()
         self._future.set_exception(exc)
